@@ -30,6 +30,23 @@ def gen_history(g):
             e["seqs"] = [{"X": flow.seq_rows(g, L, d), "Y": flow.seq_rows(g, L, o)} for L in [g.randint(2, 5) for _ in range(k)]]
             if g.chance(0.3):
                 e["fail_at"] = g.randint(0, k - 1)
+            elif k >= 2 and g.chance(0.3):
+                # a malformed batch: sequence j >= 1 has another feature / target count, fewer target rows, or is no
+                # longer than the warm-up. The call must be REJECTED, and as a whole: none of the sequences before the bad
+                # one may have been accumulated (the next fit is the one of a node that never saw the batch)
+                j = g.randint(1, k - 1)
+                bad = g.choice(["features", "targets", "ylen", "short"])
+                e["malformed"] = {"at": j, "kind": bad}
+                L = len(e["seqs"][j]["X"])
+                if bad == "features":
+                    e["seqs"][j]["X"] = flow.seq_rows(g, L, d + 1)
+                elif bad == "targets":
+                    e["seqs"][j]["Y"] = flow.seq_rows(g, L, o + 1)
+                elif bad == "ylen":
+                    e["seqs"][j]["Y"] = e["seqs"][j]["Y"][:-1]
+                else:
+                    e["seqs"][j] = {"X": e["seqs"][j]["X"][:1], "Y": e["seqs"][j]["Y"][:1]}
+                    e["warmup"] = 1
         elif op == "freeze":
             e["value"] = g.chance(0.5)
         c["ops"].append(e)
@@ -63,8 +80,10 @@ def check_history(ctx, c):
     for e in c["ops"]:
         op = e["op"]
         m = {"op": op}
+        kw = {"warmup": e["warmup"]} if "warmup" in e else {}
         if "seqs" in e:
-            m["seqs"] = [{"X": qmat(s["X"]), "Y": qmat(s["Y"])} for s in e["seqs"]]
+            if "malformed" not in e:
+                m["seqs"] = [{"X": qmat(s["X"]), "Y": qmat(s["Y"])} for s in e["seqs"]]
             Xs = [np.array(s["X"], dtype=float) for s in e["seqs"]]
             Ys = [np.array(s["Y"], dtype=float) for s in e["seqs"]]
             if "fail_at" in e:
@@ -78,10 +97,10 @@ def check_history(ctx, c):
                     node.run(np.array(flow.seq_rows(common.Gen(1), 2, c["d"]), dtype=float))
                 res = "ok"
             elif op == "partial_fit":
-                node.partial_fit(Xs, Ys)
+                node.partial_fit(Xs, Ys, **kw)
                 res = "ok"
             elif op == "fit":
-                node.fit(Xs, Ys)
+                node.fit(Xs, Ys, **kw)
                 res = "ok"
             elif op == "fit_nodata":
                 node.fit()
@@ -96,20 +115,41 @@ def check_history(ctx, c):
             res = "rejected"
         finally:
             fa.k = None
+        if "malformed" in e and op == "partial_fit":
+            # not an operation of the session model at all: a rejected partial_fit is the identity (frozen nodes reject it too)
+            m = None
+        elif "malformed" in e:
+            # a rejected fit(X, Y) is a fit that failed before its first sequence: like every failed fit it leaves no
+            # buffers behind, those of earlier partial fits included (TOp.fit with failAt = 0)
+            m["seqs"] = [{"X": qmat(e["seqs"][0]["X"]), "Y": qmat(e["seqs"][0]["Y"])}]
+            m["fail_at"] = 0
         mops.append(m)
         W = None
         if node.is_initialized:
             W = (np.vstack([np.asarray(node.bias).reshape(1, -1), np.asarray(node.Wout)]) if c["bias"] else np.asarray(node.Wout)).copy()
         obs.append((res, W))
     mo = ctx.model.one({"kind": "training_history", "regime": "E", "d": c["d"], "o": c["o"], "bias": c["bias"],
-                        "ridge": q(c["ridge"]), "ops": mops})
+                        "ridge": q(c["ridge"]), "ops": [m for m in mops if m is not None]})
     if mo[0] != "ok":
         raise common.FrameworkError("model rejected a C11 history: " + mo[1])
+    # re-align: a rejected malformed batch has no model step; what the model holds after it is what it held before
+    mres, it, last = [], iter(mo[1]), {"result": "ok", "W": None, "has_buffers": False}
+    for m in mops:
+        if m is None:
+            mres.append(dict(last, result="rejected"))
+        else:
+            last = next(it)
+            mres.append(last)
     n_fits = sum(1 for e in c["ops"] if e["op"] == "fit")
     ctx.count(c, nontrivial=n_fits >= 2 or any("fail_at" in e for e in c["ops"]), obligation=ob)
     ctx.sample({"d": c["d"], "o": c["o"], "ops": [{k: (v if k != "seqs" else len(v)) for k, v in e.items()} for e in c["ops"]]})
-    for i, ((res, W), m, e) in enumerate(zip(obs, mo[1], c["ops"])):
-        ctx.stat(f"op={e['op']} -> {res}" + (" (fail injected)" if "fail_at" in e else ""))
+    for i, ((res, W), m, e) in enumerate(zip(obs, mres, c["ops"])):
+        ctx.stat(f"op={e['op']} -> {res}" + (" (fail injected)" if "fail_at" in e else "") + (f" (malformed batch: {e['malformed']['kind']})" if "malformed" in e else ""))
+        if "malformed" in e and res != "rejected":
+            ctx.violation(f"operation {i} ({e['op']}): a batch whose sequence {e['malformed']['at']} is malformed ({e['malformed']['kind']}) was not rejected", c, obligation=ob)
+            return
+        if "malformed" in e and m["result"] == "failed":
+            m = dict(m, result="rejected")
         if res != m["result"]:
             ctx.violation(f"operation {i} ({e['op']}) ended '{res}' but the session model says '{m['result']}'", c,
                           found_input=False, obligation=ob)
@@ -123,7 +163,7 @@ def check_history(ctx, c):
                         what = ("the parameters after this operation are not those of a fresh node fitted on the data supplied since the "
                                 "previous fit ended")
                         ctx.violation(f"operation {i} ({e['op']}): {what}: entry {(a, b_)} = {float(W[a][b_])!r}, expected {float(ex[a][b_])!r} "
-                                      f"(history: {[x['op'] + ('!' if 'fail_at' in x else '') for x in c['ops'][:i + 1]]})", c,
+                                      f"(history: {[x['op'] + ('!' if 'fail_at' in x else '') + ('?' + x['malformed']['kind'] if 'malformed' in x else '') for x in c['ops'][:i + 1]]})", c,
                                       expected=float(ex[a][b_]), observed=float(W[a][b_]), obligation=ob)
                         return
 
